@@ -165,7 +165,8 @@ CLAIMED = {
               'record walker), and the library reader on reference-encoded files == the Lean reader model. The same three '
               'statements (tiling, counts, content) are proved for the slab formats (one3d, humidity, vertical diffusivity, '
               'temperature, height/pressure), cloud/rain, wind, lateral_boundary and landuse layouts (slab_tiles ... landuse_read), '
-              'each with its own reference encoder, record walker and writer/reader correspondence. Genuine defects repaired by '
+              'each with its own reference encoder, record walker and writer/reader correspondence; the Memmap readers of landuse, wind, cloud/rain and '
+              'lateral_boundary files are modelled too and proved to return exactly the encoded content (landuse_read, wind_read, cloud_rain_read, boundary_read). Genuine defects repaired by '
               'fix: commits are listed in known_findings.json.'),
         note=BASE_NOTE + 'Modelled: uamiv family (writer, Memmap reader, legacy record reader on its domain), five slab formats, cloud_rain, wind, lateral_boundary, landuse. bpch is covered by C18; point-source and vertical-diffusivity-like variants that share a slab layout are covered through that layout only. numpy tofile/memmap and float32<->bits are trusted.',
         technique='Lean 4 proof (codec round trip by induction over steps/species/layers; framing lemma) + model/implementation correspondence in both directions',
@@ -175,8 +176,9 @@ CLAIMED = {
               'at which it can be cut: opening the prefix either raises or presents exactly the first k complete time steps '
               'with identical header, grid, species and counts (never shifted or partly filled values); cuts off a word '
               'boundary always raise. Correspondence of the reader model with the real reader on every cut point of small '
-              'generated files (quick: all record boundaries +-4 bytes and random offsets; thorough: every byte).'),
-        note=BASE_NOTE + 'Theorems: uamiv Memmap reader (every cut point) and the slab readers (slab_prefix_safe); wind, bpch and lateral_boundary (modes r and r+, incl. "the file on disk keeps its size") readers are compared with the oracle on every cut point of generated files (their reader inference is not modelled). The wind reader no longer hangs on truncated prefixes (fix: commit).',
+              'generated files (quick: all record boundaries +-4 bytes and random offsets; thorough: every byte). The same statement is proved for the slab, wind and lateral-boundary '
+              'reader models (slab_prefix_safe, wind_prefix_safe, boundary_prefix_safe) and each model is compared with its real reader on every cut point.'),
+        note=BASE_NOTE + 'Theorems: uamiv Memmap reader (prefix_safe, every byte cut), the slab readers (slab_prefix_safe), the wind reader (wind_prefix_safe: below one step rejected, else exactly the leading floor(n/step) steps) and the lateral_boundary reader (boundary_prefix_safe: rejected, or the prefix is the encoding of the leading k>=1 steps and is read as such), the last three for every cut in whole words - a cut inside a word is shown by the correspondence to raise. bpch prefixes are compared with the oracle only. lateral_boundary is exercised in modes r and r+ (incl. "the file on disk keeps its size"). cloud_rain is excluded: its variable count is not stored, so some prefixes are valid files of the other variant. The wind reader no longer hangs on truncated prefixes (fix: commit).',
         technique='Lean 4 proof (prefix invariance of fixed-stride reads, divisibility argument for the partial-time check) + model/implementation correspondence over cut points',
         design='§7 C08-C09-C13-C14'),
     'C08': dict(
